@@ -935,6 +935,15 @@ func genScenario(r *rand.Rand, t *Tree, id int) *Scenario {
 		}
 	}
 	sc.RenameLong = S{}
+	defer func() {
+		// names that only exist inside no-flag struct fields are unknown to the parser
+		if treeHasNoFlag(t) && chance(r, 0.5) {
+			tok := toS(pick(r, []string{"--nf-skipped", "-N", "--nf-value=1", "--nf-value"}))
+			at := r.Intn(len(sc.Argv) + 1)
+			sc.Argv = append(sc.Argv[:at:at], append([]S{tok}, sc.Argv[at:]...)...)
+			sc.Alt, sc.AltInfo = nil, nil
+		}
+	}()
 	if sc.HasPrelude && !sc.LateGroup && chance(r, 0.2) {
 		// the public LongName field of one option is assigned a new name between the two parses: the judged vector is built
 		// over the new name most of the time (the old one is then an unknown flag)
@@ -983,4 +992,31 @@ func genScenario(r *rand.Rand, t *Tree, id int) *Scenario {
 	}
 	genArgv(r, t, sc)
 	return sc
+}
+
+func treeHasNoFlag(t *Tree) bool {
+	found := false
+	var walkG func(g *GroupNode)
+	walkG = func(g *GroupNode) {
+		if len(g.NoFlag) > 0 {
+			found = true
+		}
+		for _, sg := range g.Groups {
+			walkG(sg)
+		}
+	}
+	var walkC func(c *CmdNode)
+	walkC = func(c *CmdNode) {
+		if c.Own != nil {
+			walkG(c.Own)
+		}
+		for _, g := range c.Extra {
+			walkG(g)
+		}
+		for _, sc := range c.Cmds {
+			walkC(sc)
+		}
+	}
+	walkC(t.Root)
+	return found
 }
